@@ -29,6 +29,10 @@ class Renamer(ast.NodeTransformer):
 
   def _lookup(self, name):
     for tab, ren in reversed(self.stack):
+      if isinstance(ren, set):       # comprehension scope: only its targets shadow
+        if name in ren:
+          return None
+        continue
       try:
         s = tab.lookup(name)
       except KeyError:
@@ -92,9 +96,12 @@ class Renamer(ast.NodeTransformer):
     # the first iterable is evaluated in the enclosing scope
     first = node.generators[0]
     first.iter = self.visit(first.iter)
-    if tab is None:
-      return node
-    self._enter(tab, False)
+    targets = set()
+    for g in node.generators:
+      for x in ast.walk(g.target):
+        if isinstance(x, ast.Name):
+          targets.add(x.id)
+    self.stack.append((tab, targets))
     for i, g in enumerate(node.generators):
       g.target = self.visit(g.target)
       if i > 0:
